@@ -364,10 +364,10 @@ func defNonNil(v ssa.Value, at *ssa.BasicBlock) bool {
 
 func checkC08(c *Ctx) {
 	c.Rule("C08.R1", "for every forward/inverse closure of a registered projection, on every return whose error can be nil each coordinate result has a data dependence on a parameter of the closure")
-	c.Rule("C08.R2", "in the NewTransform closure every stage is undone by its mirror: ToMeter multiplies on the source side and divides on the destination side, FromGreenwich is added/subtracted, geographic systems scale by deg2rad/r2d (product 1), the source uses the inverse and the destination the forward member of Transformers(), adjust_axis gets denorm=false/true; stages come in mirrored order around the datum shift")
+	c.Rule("C08.R2", "model evaluation with symbolic parameters and positions, the projection members and the datum shift left as named operations: for eleven pairs of references (units, prime meridians, axis orders, geographic and projected systems, a datum shift on one or both sides) the term NewTransform computes for (x, y) equals the stages mirrored around the shift — source unit multiplies, source inverse member, source prime meridian added, datum shift (through WGS84 in two legs where the code takes that route), destination prime meridian subtracted, destination forward member, destination unit divides, geographic systems convert degrees and radians, axis flips on their own side")
 	c.Rule("C08.R3", "each of longlat, merc, lcc, aea, eqdc, tmerc, utm, krovak is registered and its constructor yields a forward and an inverse closure")
 	c.Rule("C08.R4", "in every registered inverse closure other than the identity, the first result (longitude) depends on the central-meridian field and the second (latitude) does not")
-	c.Rule("C08.R5", "conic family (inverse of the form lon = atan2(…)/N + λ0 with N a captured cone constant): the polar angle is taken of sign-corrected coordinates, atan2(s·x, s·y) with s = ±1 following the sign of N, in every member")
+	c.Rule("C08.R5", "model evaluation: the inverse member of every registered projection is interpreted on a symbolic projected position for standard parallels in the northern and in the southern hemisphere; where the longitude contains a polar angle atan2(a, b) scaled by a quantity that follows the standard parallels, the arguments for southern parallels are those for northern ones mirrored through the apex (a and b change sign together with the cone constant)")
 	p := c.P.Pkg("proj")
 	if p == nil {
 		c.Unk("C08.R1", "proj", token.NoPos, "package not loaded")
